@@ -176,6 +176,41 @@ def r9c(fb, rep):
         rep.ok(R, "recv -> Receiver::try_recv -> VecDeque::pop_front")
 
 
+def r9g(fb, rep):
+    """a send that reports success has enqueued the value: exactly-once delivery starts with an honest result"""
+    R = "R9g"
+    rep.rule(R, "channel send reports Ok only after the value was enqueued, and Err when the copy into the owner's heap failed")
+    b = fb.body("gluon_vm::channel::send")
+    if b is None:
+        rep.anchor_lost(R, "channel::send")
+        return
+    enq = [c for c in b.calls() if c.res.endswith("channel::Sender::<T>::send")]
+    clone = [c for c in b.calls() if c.res.endswith("ThreadInternal>::deep_clone_value") or c.res.endswith("ThreadInternal::deep_clone_value")]
+    oks = set(flow.blocks_constructing(b, "core::result::Result", "Ok"))
+    errs = set(flow.blocks_constructing(b, "core::result::Result", "Err"))
+    if not enq or not clone or not oks:
+        rep.anchor_lost(R, "send: deep_clone_value / Sender::send / Ok result (%d/%d/%d)" % (len(clone), len(enq), len(oks)))
+        return
+    bad = [i for i in oks if not any(b.dominates(c.bb, i) for c in enq)]
+    if bad:
+        rep.violation(R, "ok-without-enqueue", "channel::send can report Ok(()) on a path that did not enqueue the value (Sender::send does not dominate the Ok result): "
+                      "a failed deep clone would be reported as a successful send that is never delivered", b.where(), path=sorted(bad))
+    else:
+        rep.ok(R, "send: every Ok(()) result is dominated by Sender::send (the push_back)")
+    # the Err edge of the clone leads to an Err result without enqueueing
+    good = False
+    for bb, place, m, other in enum_switches_any(b):
+        if not place[1] and place[0] == clone[0].dest[0] and 1 in m and 0 in m:
+            err_region = b.reachable(m[1], avoid_blocks=[bb]) - b.reachable(m[0], avoid_blocks=[bb])
+            if (errs & err_region) and not any(c.bb in b.reachable(m[1], avoid_blocks=[bb] + [m[0]]) and c.bb in err_region for c in enq):
+                good = True
+            break
+    if good:
+        rep.ok(R, "send: a failed copy into the channel owner's heap is reported as Err(()) and nothing is enqueued")
+    else:
+        rep.violation(R, "clone-failure-not-reported", "channel::send no longer turns a failed deep_clone_value into Err(())", b.where())
+
+
 def r9d(fb, rep):
     R = "R9d"
     rep.rule(R, "reference: set variants agree; get reads the cell under its mutex")
@@ -321,6 +356,7 @@ def run(fb, rep, tier, cfg):
     terminal = r9a(fb, rep)
     r9b(fb, rep, terminal or {"Value"})
     r9c(fb, rep)
+    r9g(fb, rep)
     r9d(fb, rep)
     r9e(fb, rep)
     r9f(fb, rep)
